@@ -113,8 +113,10 @@ func (e *kvElection) checkKeyAndReelect(ctx context.Context) {
 		return
 	}
 
+	// An empty LeaderID means the leader is not known yet (no watch notification so far): the
+	// record just read is then the only source for it
 	currentLeaderID := e.LeaderID()
-	if currentLeaderID != "" && currentLeaderID != newLeaderID {
+	if currentLeaderID != newLeaderID {
 		log := e.getLogger()
 		log.Info("leader_changed_periodic_check",
 			append(e.logWithContext(ctx),
